@@ -38,7 +38,8 @@ TIERS = {
     "thorough": {"budget_s": 600, "chunk": 100, "selftest": 256, "minimise_s": 120},
 }
 PROBES = ["pending_then_resolved", "premature_use", "other_module_used_first", "cyclic_program", "same_target_twice", "future_annotations",
-          "whole_quoted", "local_class", "schema_generated", "constrained_ref", "self_spelling", "acyclic_direct_twin"]
+          "whole_quoted", "local_class", "schema_generated", "constrained_ref", "self_spelling", "acyclic_direct_twin",
+          "local_name_collides_with_module", "same_target_three_times"]
 
 CONTAINERS = ["opt", "list", "dict", "union", "req"]
 
@@ -106,8 +107,10 @@ def func_source(prog, S, direct=False):
     return (f"@utype.parse\ndef fn{S}(a: 'C{a}{S}', n: int = 0) -> 'C{b}{S}':\n    return {{'v': a.v + n}}\n")
 
 
-def local_source(S, cont2):
-    return (f"def make{S}():\n    class Loc(Schema):\n        v: int = 0\n        r0: Optional['Loc'] = None\n"
+def local_source(S, cont2, collide=False):
+    # collide: the module namespace already binds an unrelated class under the local class's name
+    pre = "class Loc(Schema):\n    v: str = 'module-level'\n    zzz: int = 0\n\n" if collide else ""
+    return (pre + f"def make{S}():\n    class Loc(Schema):\n        v: int = 0\n        r0: Optional['Loc'] = None\n"
             f"        r1: {ann(cont2, repr('Loc'), True)}{default_for(cont2)}\n    return Loc\n")
 
 
@@ -275,7 +278,7 @@ def generate(rng, tier):
     if rng.random() < 0.12:
         # function-local self-referencing class
         plan = {"prop": ID, "kind": "local", "cont2": rng.choice(["list", "dict", "opt", "union"]),
-                "events": []}
+                "collide": rng.random() < 0.4, "events": []}
         prog = {"classes": [{"refs": [{"to": 0, "cont": "opt", "spell": "str"}, {"to": 0, "cont": plan["cont2"], "spell": "str"}]}]}
         plan["prog"] = prog
         ev = []
@@ -292,18 +295,23 @@ def generate(rng, tier):
     classes = []
     for ci in range(n):
         refs = []
-        for _fi in range(rng.choice([1, 1, 2]) if not (dag and ci == n - 1) else 0):
+        for _fi in range(rng.choice([1, 1, 2, 2, 3]) if not (dag and ci == n - 1) else 0):
             to = rng.randrange(n) if not dag else rng.randrange(ci + 1, n)
             cont = rng.choice(["opt", "opt", "list", "list", "dict", "union", "req"])
             if to == ci and cont == "req":
                 cont = "opt"
             refs.append({"to": to, "cont": cont, "spell": None})
-        if len(refs) == 2 and rng.random() < 0.4:
-            refs[1]["to"] = refs[0]["to"]     # the same name in several annotations of one class
-            if refs[1]["cont"] == refs[0]["cont"]:
-                refs[1]["cont"] = "dict" if refs[0]["cont"] != "dict" else "list"
-            if refs[1]["to"] == ci and refs[1]["cont"] == "req":
-                refs[1]["cont"] = "opt"
+        if len(refs) >= 2 and rng.random() < 0.5:
+            # the same name in several (2 or 3) annotations of one class, each in another container
+            pool_c = ["opt", "list", "dict", "union"]
+            rng.shuffle(pool_c)
+            for j in range(1, len(refs)):
+                refs[j]["to"] = refs[0]["to"]
+            used_c = set()
+            for j, r_ in enumerate(refs):
+                if r_["cont"] in used_c or (r_["to"] == ci and r_["cont"] == "req") or (dag is False and r_["cont"] == "req" and j > 0):
+                    r_["cont"] = next(c for c in pool_c if c not in used_c)
+                used_c.add(r_["cont"])
         classes.append({"refs": refs, "base": rng.choice(["schema", "schema", "dataclass"]), "lim": rng.random() < 0.15})
     prog = {"classes": classes, "future": future, "func": {"arg": rng.randrange(n), "ret": rng.randrange(n)}}
     # break required cycles (a required cycle has no finite valid input; keep at most opt/list/... on back edges)
@@ -397,7 +405,9 @@ def execute(plan):
     prog = plan["prog"]
     S = "__" + kernel.new_suffix()
     if plan["kind"] == "local":
-        mod = kernel.make_module("verif_c17_loc_" + S.strip("_"), HEADER + local_source(S, plan["cont2"]))
+        mod = kernel.make_module("verif_c17_loc_" + S.strip("_"), HEADER + local_source(S, plan["cont2"], plan.get("collide")))
+        if plan.get("collide"):
+            res.stats["probe:local_name_collides_with_module"] += 1
         res.stats["probe:local_class"] += 1
         for n, e in enumerate(plan["events"]):
             if e["ev"] == "other_module":
@@ -421,7 +431,7 @@ def execute(plan):
                 break
             res.nontrivial = True
         if res.nontrivial:
-            res.nontrivial = kernel.digest_of([plan["kind"], plan["cont2"], [e["ev"] for e in plan["events"]]])
+            res.nontrivial = kernel.digest_of([plan["kind"], plan["cont2"], plan.get("collide"), [e["ev"] for e in plan["events"]]])
         return res
 
     mod = kernel.make_module("verif_c17_" + S.strip("_"),
@@ -435,6 +445,8 @@ def execute(plan):
         tos = [(r["to"]) for r in c["refs"]]
         if len(tos) != len(set(tos)):
             res.stats["probe:same_target_twice"] += 1
+        if len(tos) == 3 and len(set(tos)) == 1:
+            res.stats["probe:same_target_three_times"] += 1
         for r in c["refs"]:
             if r["spell"] == "whole":
                 res.stats["probe:whole_quoted"] += 1
